@@ -6,6 +6,8 @@ mod cfg;
 mod lifting;
 mod ssa_impl;
 mod unique_vars;
+#[cfg(feature = "verif")]
+pub mod verif;
 
 pub use basic_block::BasicBlock;
 pub use cfg::{Cfg, DefinitionType, Index};
